@@ -1,11 +1,700 @@
-//! C18: bounded-exhaustive exploration of `NumbatList` against a plain `Vec` model.
-//! (filled in below)
-use serde_json::{json, Value as J};
+//! C18: exploration of `numbat::list::NumbatList` against a plain `Vec` model.
+//!
+//! The explorer drives the *real* list type through its public operations on several
+//! simultaneously live handles (which may share one allocation through different views)
+//! and, after every single operation, compares **every** live handle with its model:
+//! length, emptiness, iteration order, the element `head` would return, pairwise equality.
+//!
+//! Three drivers share the same step/compare code:
+//!  * `listcheck`  – depth-first enumeration of all operation sequences up to a bound, with
+//!                   optional pruning on a canonical form of (contents, sharing structure);
+//!  * `listfuzz`   – long seeded random sequences on more handles;
+//!  * `listrun`    – replay of one explicit sequence with a dump of every intermediate state.
+//!
+//! There is no oracle logic about *numbat programs* here — only the `Vec` model of a list.
+use std::collections::{HashMap, VecDeque};
 
-pub fn op_listcheck(_req: &J) -> J {
-    json!({"ok": false, "harness_error": "not implemented"})
+use numbat::list::NumbatList;
+use numbat::value::Value;
+use numbat::verif::Quantity;
+use serde_json::{json, Map, Value as J};
+
+type L = NumbatList<Value>;
+
+fn mk(id: u32) -> Value {
+    Value::Quantity(Quantity::from_scalar(id as f64))
 }
 
-pub fn op_listrun(_req: &J) -> J {
-    json!({"ok": false, "harness_error": "not implemented"})
+fn id_of(v: &Value) -> i64 {
+    match v {
+        Value::Quantity(q) => {
+            let f = q.unsafe_value().to_f64();
+            if f.fract() == 0.0 && f.abs() < 1e15 {
+                f as i64
+            } else {
+                -1
+            }
+        }
+        _ => -2,
+    }
+}
+
+#[derive(Clone, Copy, Debug, PartialEq, Eq, Hash)]
+pub enum Op {
+    New(u8),
+    WithCap(u8),
+    /// `From<VecDeque<Value>>` with two fresh elements
+    Lit(u8),
+    /// literal the way the VM builds it: `with_capacity(n)` then `push_front` n times
+    VmLit(u8),
+    CloneTo(u8, u8),
+    PushFront(u8),
+    PushBack(u8),
+    Tail(u8),
+    /// consuming `head(self)`: the handle is gone afterwards
+    Head(u8),
+    Drop(u8),
+}
+
+impl Op {
+    fn to_json(self) -> J {
+        match self {
+            Op::New(a) => json!(["new", a]),
+            Op::WithCap(a) => json!(["with_capacity", a]),
+            Op::Lit(a) => json!(["lit", a]),
+            Op::VmLit(a) => json!(["vmlit", a]),
+            Op::CloneTo(a, b) => json!(["clone_to", a, b]),
+            Op::PushFront(a) => json!(["push_front", a]),
+            Op::PushBack(a) => json!(["push_back", a]),
+            Op::Tail(a) => json!(["tail", a]),
+            Op::Head(a) => json!(["head", a]),
+            Op::Drop(a) => json!(["drop", a]),
+        }
+    }
+
+    fn from_json(j: &J) -> Option<Op> {
+        let a = j.as_array()?;
+        let name = a.first()?.as_str()?;
+        let x = a.get(1).and_then(|v| v.as_u64()).unwrap_or(0) as u8;
+        let y = a.get(2).and_then(|v| v.as_u64()).unwrap_or(0) as u8;
+        Some(match name {
+            "new" => Op::New(x),
+            "with_capacity" => Op::WithCap(x),
+            "lit" => Op::Lit(x),
+            "vmlit" => Op::VmLit(x),
+            "clone_to" => Op::CloneTo(x, y),
+            "push_front" => Op::PushFront(x),
+            "push_back" => Op::PushBack(x),
+            "tail" => Op::Tail(x),
+            "head" => Op::Head(x),
+            "drop" => Op::Drop(x),
+            _ => return None,
+        })
+    }
+
+    fn name(self) -> &'static str {
+        match self {
+            Op::New(_) => "new",
+            Op::WithCap(_) => "with_capacity",
+            Op::Lit(_) => "lit",
+            Op::VmLit(_) => "vmlit",
+            Op::CloneTo(..) => "clone_to",
+            Op::PushFront(_) => "push_front",
+            Op::PushBack(_) => "push_back",
+            Op::Tail(_) => "tail",
+            Op::Head(_) => "head",
+            Op::Drop(_) => "drop",
+        }
+    }
+}
+
+pub struct State {
+    h: Vec<Option<L>>,
+    m: Vec<Option<Vec<u32>>>,
+    next: u32,
+}
+
+#[derive(Default)]
+pub struct Stats {
+    pub steps: u64,
+    pub nodes: u64,
+    pub pruned: u64,
+    pub leaves: u64,
+    pub comparisons: u64,
+    pub max_len: usize,
+    pub max_sharers: usize,
+    pub ops: HashMap<&'static str, u64>,
+    pub paths: HashMap<&'static str, u64>,
+}
+
+impl Stats {
+    fn path(&mut self, p: &'static str) {
+        *self.paths.entry(p).or_insert(0) += 1;
+    }
+
+    pub fn to_json(&self) -> J {
+        let mut ops = Map::new();
+        for (k, v) in &self.ops {
+            ops.insert(k.to_string(), json!(v));
+        }
+        let mut paths = Map::new();
+        for (k, v) in &self.paths {
+            paths.insert(k.to_string(), json!(v));
+        }
+        json!({"steps": self.steps, "nodes": self.nodes, "pruned": self.pruned, "leaves": self.leaves,
+               "comparisons": self.comparisons, "max_len": self.max_len, "max_sharers": self.max_sharers,
+               "ops": ops, "paths": paths})
+    }
+}
+
+impl State {
+    pub fn new(handles: usize) -> State {
+        State {
+            h: (0..handles).map(|_| None).collect(),
+            m: (0..handles).map(|_| None).collect(),
+            next: 1,
+        }
+    }
+
+    fn fresh(&mut self) -> u32 {
+        let id = self.next;
+        self.next += 1;
+        id
+    }
+
+    fn live(&self, i: u8) -> bool {
+        self.h.get(i as usize).map(|x| x.is_some()).unwrap_or(false)
+    }
+
+    /// which branch of list.rs the operation is about to take (from the hooked sharing state)
+    fn classify(&self, op: Op, st: &mut Stats) {
+        let info = |i: u8| {
+            let l = self.h[i as usize].as_ref().unwrap();
+            (l.verif_strong_count(), l.verif_view(), l.verif_alloc_len())
+        };
+        match op {
+            Op::PushFront(i) => {
+                let (sc, view, _) = info(i);
+                st.path(match (sc > 1, view) {
+                    (true, None) => "push_front:shared,whole->copy",
+                    (true, Some(_)) => "push_front:shared,view->copy",
+                    (false, None) => "push_front:unique,whole",
+                    (false, Some((0, _))) => "push_front:unique,view,start=0",
+                    (false, Some(_)) => "push_front:unique,view,start>0 (overwrite in place)",
+                });
+            }
+            Op::PushBack(i) => {
+                let (sc, view, alen) = info(i);
+                st.path(match (sc > 1, view) {
+                    (true, None) => "push_back:shared,whole->copy",
+                    (true, Some(_)) => "push_back:shared,view->copy",
+                    (false, None) => "push_back:unique,whole",
+                    (false, Some((_, e))) if e == alen => "push_back:unique,view,end=len",
+                    (false, Some(_)) => "push_back:unique,view,end<len (overwrite in place)",
+                });
+            }
+            Op::Tail(i) => {
+                let (sc, view, _) = info(i);
+                let empty = self.h[i as usize].as_ref().unwrap().is_empty();
+                st.path(match (empty, view.is_some(), sc > 1) {
+                    (true, _, _) => "tail:empty->error",
+                    (false, true, true) => "tail:view,shared",
+                    (false, true, false) => "tail:view,unique",
+                    (false, false, true) => "tail:whole,shared",
+                    (false, false, false) => "tail:whole,unique",
+                });
+            }
+            Op::Head(i) => {
+                let (sc, view, _) = info(i);
+                let empty = self.h[i as usize].as_ref().unwrap().is_empty();
+                st.path(match (empty, sc > 1, view.is_some()) {
+                    (true, _, _) => "head:empty",
+                    (false, true, true) => "head:shared,view (clone element)",
+                    (false, true, false) => "head:shared,whole (clone element)",
+                    (false, false, true) => "head:unique,view (swap_remove_front)",
+                    (false, false, false) => "head:unique,whole (swap_remove_front)",
+                });
+            }
+            _ => {}
+        }
+    }
+
+    /// apply `op` to the real lists and to the model; Err = the operation itself misbehaved
+    pub fn apply(&mut self, op: Op, st: &mut Stats) -> Result<(), String> {
+        st.steps += 1;
+        *st.ops.entry(op.name()).or_insert(0) += 1;
+        match op {
+            Op::New(s) => {
+                self.h[s as usize] = Some(L::new());
+                self.m[s as usize] = Some(vec![]);
+            }
+            Op::WithCap(s) => {
+                self.h[s as usize] = Some(L::with_capacity(3));
+                self.m[s as usize] = Some(vec![]);
+            }
+            Op::Lit(s) => {
+                let (a, b) = (self.fresh(), self.fresh());
+                let dq: VecDeque<Value> = vec![mk(a), mk(b)].into();
+                let v: Value = dq.into();
+                self.h[s as usize] = Some(v.unsafe_as_list());
+                self.m[s as usize] = Some(vec![a, b]);
+            }
+            Op::VmLit(s) => {
+                // `[a, b, c]` as compiled: elements pushed in order, popped in reverse, push_front
+                let ids = [self.fresh(), self.fresh(), self.fresh()];
+                let mut l = L::with_capacity(3);
+                for id in ids.iter().rev() {
+                    l.push_front(mk(*id));
+                }
+                self.h[s as usize] = Some(l);
+                self.m[s as usize] = Some(ids.to_vec());
+            }
+            Op::CloneTo(d, s) => {
+                let c = self.h[s as usize].as_ref().unwrap().clone();
+                self.h[d as usize] = Some(c);
+                self.m[d as usize] = self.m[s as usize].clone();
+            }
+            Op::PushFront(i) => {
+                self.classify(op, st);
+                let id = self.fresh();
+                self.h[i as usize].as_mut().unwrap().push_front(mk(id));
+                self.m[i as usize].as_mut().unwrap().insert(0, id);
+            }
+            Op::PushBack(i) => {
+                self.classify(op, st);
+                let id = self.fresh();
+                self.h[i as usize].as_mut().unwrap().push_back(mk(id));
+                self.m[i as usize].as_mut().unwrap().push(id);
+            }
+            Op::Tail(i) => {
+                self.classify(op, st);
+                let r = self.h[i as usize].as_mut().unwrap().tail();
+                let m = self.m[i as usize].as_mut().unwrap();
+                if m.is_empty() {
+                    if r.is_ok() {
+                        return Err("tail of an empty list did not report an error".into());
+                    }
+                } else {
+                    if r.is_err() {
+                        return Err("tail of a non-empty list reported an error".into());
+                    }
+                    m.remove(0);
+                }
+            }
+            Op::Head(i) => {
+                self.classify(op, st);
+                let l = self.h[i as usize].take().unwrap();
+                let m = self.m[i as usize].take().unwrap();
+                let got = l.head();
+                match (got, m.first()) {
+                    (None, None) => {}
+                    (Some(v), Some(e)) if id_of(&v) == *e as i64 => {}
+                    (g, e) => {
+                        return Err(format!(
+                            "head returned {:?}, the model's first element is {:?}",
+                            g.as_ref().map(id_of),
+                            e
+                        ));
+                    }
+                }
+            }
+            Op::Drop(i) => {
+                self.h[i as usize] = None;
+                self.m[i as usize] = None;
+            }
+        }
+        Ok(())
+    }
+
+    /// compare every live handle with its model (and every pair of handles)
+    pub fn compare_all(&self, st: &mut Stats) -> Result<(), String> {
+        for (i, (h, m)) in self.h.iter().zip(self.m.iter()).enumerate() {
+            let (Some(h), Some(m)) = (h, m) else {
+                if h.is_some() != m.is_some() {
+                    return Err(format!("harness: slot {i} liveness differs"));
+                }
+                continue;
+            };
+            st.comparisons += 1;
+            st.max_len = st.max_len.max(m.len());
+            st.max_sharers = st.max_sharers.max(h.verif_strong_count());
+            if h.len() != m.len() {
+                return Err(format!("handle {i}: len() = {}, model has {} elements {:?}", h.len(), m.len(), m));
+            }
+            if h.is_empty() != m.is_empty() {
+                return Err(format!("handle {i}: is_empty() = {}, model {:?}", h.is_empty(), m));
+            }
+            let got: Vec<i64> = h.iter().map(id_of).collect();
+            let want: Vec<i64> = m.iter().map(|x| *x as i64).collect();
+            if got != want {
+                return Err(format!("handle {i}: iterates as {got:?}, model says {want:?}"));
+            }
+            // copying: a copy equals the original and holds the same elements
+            let c = h.clone();
+            if c != *h {
+                return Err(format!("handle {i}: a clone does not compare equal to its origin"));
+            }
+            let first = c.head();
+            match (first.as_ref().map(id_of), want.first()) {
+                (None, None) => {}
+                (Some(a), Some(b)) if a == *b => {}
+                (a, b) => return Err(format!("handle {i}: head() of a copy gives {a:?}, model {b:?}")),
+            }
+            // the temporary copy is gone: the origin must be untouched
+            let again: Vec<i64> = h.iter().map(id_of).collect();
+            if again != want {
+                return Err(format!("handle {i}: contents changed by head() on a copy: {again:?} vs {want:?}"));
+            }
+        }
+        for i in 0..self.h.len() {
+            for j in 0..self.h.len() {
+                if let (Some(a), Some(b)) = (&self.h[i], &self.h[j]) {
+                    st.comparisons += 1;
+                    let want = self.m[i] == self.m[j];
+                    if (a == b) != want {
+                        return Err(format!(
+                            "handles {i} and {j}: == gives {}, models {:?} vs {:?}",
+                            a == b,
+                            self.m[i],
+                            self.m[j]
+                        ));
+                    }
+                    if i != j {
+                        let same_alloc = a.verif_alloc_id() == b.verif_alloc_id();
+                        st.path(match (same_alloc, a.verif_view() == b.verif_view()) {
+                            (true, true) => "eq:same allocation, same view",
+                            (true, false) => "eq:same allocation, different views",
+                            (false, _) => "eq:different allocations",
+                        });
+                    }
+                }
+            }
+        }
+        Ok(())
+    }
+
+    /// canonical form of (contents, sharing structure); element ids and allocation addresses are
+    /// renamed in order of first appearance
+    pub fn canonical(&self) -> Vec<u32> {
+        let mut key = Vec::with_capacity(32);
+        let mut allocs: Vec<usize> = Vec::new();
+        let mut ids: HashMap<u32, u32> = HashMap::new();
+        for (h, m) in self.h.iter().zip(self.m.iter()) {
+            match (h, m) {
+                (Some(h), Some(m)) => {
+                    let a = h.verif_alloc_id();
+                    let ai = match allocs.iter().position(|x| *x == a) {
+                        Some(p) => p,
+                        None => {
+                            allocs.push(a);
+                            allocs.len() - 1
+                        }
+                    };
+                    key.push(1 + ai as u32);
+                    match h.verif_view() {
+                        None => key.extend([0, 0, 0]),
+                        Some((s, e)) => key.extend([1, s as u32, e as u32]),
+                    }
+                    key.push(h.verif_alloc_len() as u32);
+                    key.push(h.verif_strong_count() as u32);
+                    key.push(m.len() as u32);
+                    for e in m {
+                        let n = ids.len() as u32;
+                        key.push(*ids.entry(*e).or_insert(n));
+                    }
+                }
+                _ => key.push(0),
+            }
+        }
+        key
+    }
+
+    pub fn enabled(&self) -> Vec<Op> {
+        let n = self.h.len() as u8;
+        let mut ops = Vec::with_capacity(20);
+        if let Some(e) = (0..n).find(|i| !self.live(*i)) {
+            ops.push(Op::New(e));
+            ops.push(Op::WithCap(e));
+            ops.push(Op::Lit(e));
+            ops.push(Op::VmLit(e));
+            for j in 0..n {
+                if self.live(j) {
+                    ops.push(Op::CloneTo(e, j));
+                }
+            }
+        }
+        for i in 0..n {
+            if self.live(i) {
+                ops.extend([Op::PushFront(i), Op::PushBack(i), Op::Tail(i), Op::Head(i), Op::Drop(i)]);
+            }
+        }
+        ops
+    }
+
+    pub fn dump(&self) -> J {
+        let mut out = Vec::new();
+        for (h, m) in self.h.iter().zip(self.m.iter()) {
+            match (h, m) {
+                (Some(h), Some(m)) => out.push(json!({
+                    "real": h.iter().map(id_of).collect::<Vec<_>>(), "model": m, "len": h.len(),
+                    "alloc": h.verif_alloc_id() % 100_000, "view": h.verif_view().map(|(a, b)| vec![a, b]),
+                    "alloc_len": h.verif_alloc_len(), "strong": h.verif_strong_count()})),
+                _ => out.push(J::Null),
+            }
+        }
+        J::Array(out)
+    }
+}
+
+fn replay(handles: usize, seq: &[Op], st: &mut Stats) -> Result<State, (usize, String)> {
+    let mut s = State::new(handles);
+    for (k, op) in seq.iter().enumerate() {
+        s.apply(*op, st).map_err(|e| (k, e))?;
+    }
+    Ok(s)
+}
+
+struct Explorer {
+    handles: usize,
+    prune: bool,
+    seen: HashMap<Vec<u32>, u8>,
+    st: Stats,
+    scratch: Stats,
+    violations: Vec<J>,
+    node_budget: u64,
+    exhausted: bool,
+}
+
+impl Explorer {
+    /// `seq` has been executed and checked up to its last element; explore its extensions
+    fn dfs(&mut self, seq: &mut Vec<Op>, left: u8) {
+        if self.violations.len() >= 10 || self.exhausted {
+            return;
+        }
+        // rebuild the state (handles cannot be deep-copied without changing the sharing structure)
+        let state = match replay(self.handles, seq, &mut self.scratch) {
+            Ok(s) => s,
+            Err(_) => return, // cannot happen: the prefix was executed before
+        };
+        if left == 0 {
+            self.st.leaves += 1;
+            return;
+        }
+        if self.prune {
+            let key = state.canonical();
+            match self.seen.get(&key) {
+                Some(d) if *d >= left => {
+                    self.st.pruned += 1;
+                    return;
+                }
+                _ => {
+                    self.seen.insert(key, left);
+                }
+            }
+        }
+        let ops = state.enabled();
+        drop(state);
+        for op in ops {
+            self.step(seq, op, left);
+        }
+    }
+
+    fn step(&mut self, seq: &mut Vec<Op>, op: Op, left: u8) {
+        if self.st.nodes >= self.node_budget {
+            self.exhausted = true;
+            return;
+        }
+        self.st.nodes += 1;
+        let mut state = match replay(self.handles, seq, &mut self.scratch) {
+            Ok(s) => s,
+            Err(_) => return,
+        };
+        seq.push(op);
+        let r = state.apply(op, &mut self.st).and_then(|_| state.compare_all(&mut self.st));
+        match r {
+            Err(why) => {
+                self.violations.push(json!({
+                    "handles": self.handles,
+                    "seq": seq.iter().map(|o| o.to_json()).collect::<Vec<_>>(),
+                    "why": why, "state": state.dump()}));
+            }
+            Ok(()) => {
+                drop(state);
+                self.dfs(seq, left - 1);
+            }
+        }
+        seq.pop();
+    }
+}
+
+/// {"op":"listcheck","handles":3,"depth":5,"shard":k,"nshards":n,"prune":true}
+pub fn op_listcheck(req: &J) -> J {
+    let handles = req.get("handles").and_then(|v| v.as_u64()).unwrap_or(3) as usize;
+    let depth = req.get("depth").and_then(|v| v.as_u64()).unwrap_or(4) as u8;
+    let shard = req.get("shard").and_then(|v| v.as_u64()).unwrap_or(0);
+    let nshards = req.get("nshards").and_then(|v| v.as_u64()).unwrap_or(1).max(1);
+    let prune = req.get("prune").and_then(|v| v.as_bool()).unwrap_or(true);
+    let budget = req.get("node_budget").and_then(|v| v.as_u64()).unwrap_or(u64::MAX);
+    let mut ex = Explorer {
+        handles,
+        prune,
+        seen: HashMap::new(),
+        st: Stats::default(),
+        scratch: Stats::default(),
+        violations: vec![],
+        node_budget: budget,
+        exhausted: false,
+    };
+    // shard on the first two operations
+    let mut k = 0u64;
+    let root = State::new(handles);
+    let first = root.enabled();
+    drop(root);
+    let mut seq = Vec::new();
+    for a in first {
+        if depth == 0 {
+            break;
+        }
+        let mut sc = Stats::default();
+        let mut s1 = State::new(handles);
+        if s1.apply(a, &mut sc).is_err() {
+            continue;
+        }
+        if depth == 1 {
+            if k % nshards == shard {
+                ex.step(&mut seq, a, depth);
+            }
+            k += 1;
+            continue;
+        }
+        // the one-operation prefix is checked by shard 0
+        if shard == 0 {
+            ex.st.nodes += 1;
+            if let Err(why) = s1.compare_all(&mut ex.st) {
+                ex.violations.push(json!({"handles": handles, "seq": [a.to_json()], "why": why, "state": s1.dump()}));
+            }
+        }
+        let second = s1.enabled();
+        drop(s1);
+        seq.push(a);
+        for b in second {
+            if k % nshards == shard {
+                ex.step(&mut seq, b, depth - 1);
+            }
+            k += 1;
+        }
+        seq.pop();
+    }
+    json!({"ok": true, "stats": ex.st.to_json(), "distinct_states": ex.seen.len(), "exhausted_budget": ex.exhausted,
+           "violations": ex.violations, "handles": handles, "depth": depth, "prune": prune})
+}
+
+struct Rng(u64);
+impl Rng {
+    fn next(&mut self) -> u64 {
+        // splitmix64
+        self.0 = self.0.wrapping_add(0x9E37_79B9_7F4A_7C15);
+        let mut z = self.0;
+        z = (z ^ (z >> 30)).wrapping_mul(0xBF58_476D_1CE4_E5B9);
+        z = (z ^ (z >> 27)).wrapping_mul(0x94D0_49BB_1331_11EB);
+        z ^ (z >> 31)
+    }
+    fn below(&mut self, n: usize) -> usize {
+        (self.next() % n as u64) as usize
+    }
+}
+
+/// {"op":"listfuzz","handles":6,"len":300,"count":1000,"seed":s}
+pub fn op_listfuzz(req: &J) -> J {
+    let handles = req.get("handles").and_then(|v| v.as_u64()).unwrap_or(6) as usize;
+    let len = req.get("len").and_then(|v| v.as_u64()).unwrap_or(200) as usize;
+    let count = req.get("count").and_then(|v| v.as_u64()).unwrap_or(100) as usize;
+    let seed = req.get("seed").and_then(|v| v.as_u64()).unwrap_or(0);
+    let mut st = Stats::default();
+    let mut violations = vec![];
+    let mut distinct: std::collections::HashSet<Vec<u32>> = Default::default();
+    for c in 0..count {
+        let mut rng = Rng(seed.wrapping_mul(0x1000_0000_01B3).wrapping_add(c as u64));
+        let mut s = State::new(handles);
+        let mut seq: Vec<Op> = vec![];
+        // per-sequence bias: some sequences grow, some shrink, some clone a lot
+        let bias = rng.below(4);
+        for _ in 0..len {
+            let ops = s.enabled();
+            let op = loop {
+                let op = ops[rng.below(ops.len())];
+                let keep = match (bias, op) {
+                    (0, Op::Drop(_)) | (0, Op::Head(_)) => rng.below(4) == 0,
+                    (1, Op::PushFront(_)) | (1, Op::PushBack(_)) => rng.below(3) == 0,
+                    (2, Op::New(_)) | (2, Op::WithCap(_)) | (2, Op::Lit(_)) | (2, Op::VmLit(_)) => rng.below(4) == 0,
+                    _ => true,
+                };
+                if keep {
+                    break op;
+                }
+            };
+            seq.push(op);
+            st.nodes += 1;
+            if let Err(why) = s.apply(op, &mut st).and_then(|_| s.compare_all(&mut st)) {
+                violations.push(json!({"handles": handles, "seq": seq.iter().map(|o| o.to_json()).collect::<Vec<_>>(),
+                                       "why": why, "state": s.dump()}));
+                break;
+            }
+            if distinct.len() < 2_000_000 {
+                distinct.insert(s.canonical());
+            }
+        }
+        st.leaves += 1;
+        if violations.len() >= 5 {
+            break;
+        }
+    }
+    json!({"ok": true, "stats": st.to_json(), "distinct_states": distinct.len(), "violations": violations,
+           "handles": handles, "len": len, "count": count})
+}
+
+/// {"op":"listrun","handles":3,"seq":[["new",0],["push_front",0],...]}
+pub fn op_listrun(req: &J) -> J {
+    let handles = req.get("handles").and_then(|v| v.as_u64()).unwrap_or(3) as usize;
+    let Some(seq) = req.get("seq").and_then(|v| v.as_array()) else {
+        return json!({"ok": false, "harness_error": "seq missing"});
+    };
+    let mut st = Stats::default();
+    let mut s = State::new(handles);
+    let mut steps = vec![];
+    for (k, j) in seq.iter().enumerate() {
+        let Some(op) = Op::from_json(j) else {
+            return json!({"ok": false, "harness_error": format!("bad op {j}")});
+        };
+        let valid = match op {
+            Op::New(a) | Op::WithCap(a) | Op::Lit(a) | Op::VmLit(a) => (a as usize) < handles,
+            Op::CloneTo(a, b) => (a as usize) < handles && s.live(b),
+            Op::PushFront(a) | Op::PushBack(a) | Op::Tail(a) | Op::Head(a) | Op::Drop(a) => s.live(a),
+        };
+        if !valid {
+            return json!({"ok": false, "harness_error": format!("op {j} not enabled at step {k}")});
+        }
+        let r = s.apply(op, &mut st).and_then(|_| s.compare_all(&mut st));
+        steps.push(json!({"op": j, "state": s.dump(), "problem": r.as_ref().err()}));
+        if let Err(why) = r {
+            return json!({"ok": true, "violated": true, "step": k, "why": why, "steps": steps});
+        }
+    }
+    json!({"ok": true, "violated": false, "steps": steps, "stats": st.to_json()})
+}
+
+/// stand-alone entry (used under Miri): `nbserve listcheck <handles> <depth> [prune]`
+pub fn main_standalone(args: &[String]) -> i32 {
+    let handles: u64 = args.first().and_then(|s| s.parse().ok()).unwrap_or(2);
+    let depth: u64 = args.get(1).and_then(|s| s.parse().ok()).unwrap_or(3);
+    let prune = args.get(2).map(|s| s != "noprune").unwrap_or(true);
+    let shard: u64 = args.get(3).and_then(|s| s.parse().ok()).unwrap_or(0);
+    let nshards: u64 = args.get(4).and_then(|s| s.parse().ok()).unwrap_or(1);
+    let r = op_listcheck(&json!({"handles": handles, "depth": depth, "prune": prune, "shard": shard, "nshards": nshards}));
+    println!("{r}");
+    if r["violations"].as_array().map(|a| a.is_empty()).unwrap_or(false) {
+        0
+    } else {
+        1
+    }
 }
